@@ -30,6 +30,10 @@ pub struct RunOpts {
     pub begin: Option<String>,
     #[serde(default)]
     pub end: Option<String>,
+    /// `--args` is written before the other options (`run -c build -t app --args baz --argmaps ci`, as in the
+    /// README) instead of last
+    #[serde(default)]
+    pub args_first: bool,
 }
 impl RunOpts {
     pub fn to_args(&self) -> Vec<String> {
@@ -45,6 +49,10 @@ impl RunOpts {
         if !self.targets.is_empty() {
             a.push("-t".into());
             a.extend(self.targets.iter().cloned());
+        }
+        if !self.args.is_empty() && self.args_first {
+            a.push("--args".into());
+            a.extend(self.args.iter().cloned());
         }
         if self.deps {
             a.push("--deps".into());
@@ -67,8 +75,8 @@ impl RunOpts {
             a.push("--end".into());
             a.push(e.clone());
         }
-        if !self.args.is_empty() {
-            // last: --args takes every remaining value verbatim
+        if !self.args.is_empty() && !self.args_first {
+            // last
             a.push("--args".into());
             a.extend(self.args.iter().cloned());
         }
